@@ -575,6 +575,10 @@ func (m *machine) runStep(idx int, s step) (stop bool) {
 		m.emit(obj{"ev": "Filter", "args": s.Args, "wfErr": tf.WellFormed() != nil, "string": ints([]byte(str)),
 			"filter": ints([]byte(tf.Filter())), "options": int(tf.Options())})
 
+	case "CmpDiag":
+		// a marker: the trace specification compares the Diag outputs of the two handles
+		m.emit(obj{"ev": "CmpDiag", "hs": s.Hs})
+
 	case "Conc":
 		m.runConc(s)
 
